@@ -151,7 +151,7 @@ NATIVE_WHAT = {
     'c08': 'real second_chance::Update::new against an executable clock twin, all sequences of <= 5 entries over 3 ranks x flags, capacities 0..n+1 and usize::MAX',
     'c10': 'real plain cache: population bound k + max(1, k/3) over write sequences for small capacities',
     'c12': 'real sharded cache: directory names, put location and probe order against an independent reimplementation of the documented hash functions',
-    'c13': 'real Cache::get_or_update over writer {none, plain, sharded} x key location x judge action x populate outcome x checker (240 configurations), and get / touch '
+    'c13': 'real Cache::get_or_update over writer {none, plain, sharded} x key location x judge action x populate outcome x checker {none, byte equality, a custom checker that rejects with an error of kind NotFound} (360 configurations), and get / touch '
            'through stacks of three read-only levels x writer {none, empty, holding} x checker x equal/different copies (72 configurations)',
     'c16': 'a name grammar (empty, reserved first bytes, embedded /, .., long, non-ASCII) x {set, put, get, touch} x {plain, sharded} inside a sentinel tree',
     'c17': 'real prune / set on directories mixing key files, dot-prefixed application files (one with a non-UTF-8 name), subdirectories and temporary files on both sides of the age limit',
